@@ -162,13 +162,24 @@ impl HCirc {
     /// The statements of the program, one per gate (the header is separate), so
     /// that the harness knows the statement boundaries it printed.
     pub fn qasm_header(&self) -> String {
-        let mut s = String::from("OPENQASM 2.0;\ninclude \"qelib1.inc\";\n");
+        // header layout from the style seed: plain; CRLF line ends; a classical register as well;
+        // a leading comment and a blank line
+        let hv = if self.style == 0 { 0 } else { crate::decider::mix(self.style, 0xead) % 6 };
+        let nl = if hv == 1 { "\r\n" } else { "\n" };
+        let mut s = String::new();
+        if hv == 3 {
+            s += "// generated\n\n";
+        }
+        s += &format!("OPENQASM 2.0;{nl}include \"qelib1.inc\";{nl}");
         if self.regs.len() <= 1 {
-            s += &format!("qreg q[{}];\n", self.n);
+            s += &format!("qreg q[{}];{nl}", self.n);
         } else {
             for (r, &sz) in self.regs.iter().enumerate() {
-                s += &format!("qreg r{}[{}];\n", r, sz);
+                s += &format!("qreg r{}[{}];{nl}", r, sz);
             }
+        }
+        if hv == 2 {
+            s += &format!("creg c[{}];{nl}", self.n.max(1));
         }
         s
     }
@@ -207,10 +218,18 @@ impl HCirc {
                 let bare = (v >> 20) % 3 == 1 && g.k.arity() == 1;
                 let qs: Vec<String> = g.qs.iter().map(|&q| self.qname_styled(q, bare)).collect();
                 s += &qs.join(if (v >> 24) % 4 == 1 { " ,  " } else { ", " });
-                s += match (v >> 28) % 6 {
+                s += match (v >> 28) % 12 {
                     1 => " ;\n",
                     2 => "; // a comment\n",
                     3 => ";\n\n",
+                    // other line ends and separators: CRLF, a tab, a blank (the next statement follows
+                    // on the same line), a comment that contains semicolons. (Not a bare CR: the
+                    // openqasm lexer rejects it outside comments - "invalid token" - which is an
+                    // error, not a wrong answer.)
+                    6 | 7 => ";\r\n",
+                    8 => ";\t",
+                    9 => "; ",
+                    10 => "; // a; b; c\n",
                     _ => ";\n",
                 };
                 let w = if self.defs == 0 { 1 } else { crate::decider::mix(self.defs, i as u64) };
